@@ -12,7 +12,7 @@ DRIVERS = ['C12']
 NEEDS = dict(cli=True, harness=True, shim=True, release=True)
 RULE = ("`new -n L` for every L in 0..40 under the shim with scripted entropy (all-zero, all-ones, counter, alternating, random "
         "patterns): the printed phrase must be the BIP-39 encoding of exactly the scripted bytes and the request log must show one "
-        "request of 4L/3 bytes; failure injected at the first request (and at later requests of a vanity search); default "
+        "request of 4L/3 bytes; consecutive requests of a vanity search returning related buffers (same leading/trailing block, one bit apart, repeated); failure injected at the first request (and at later requests of a vanity search); default "
         "length; without the shim: repeated invocations give pairwise distinct phrases that the tool parses back; "
         "a case is distinct by (L, entropy pattern)")
 TRUSTED = ["C12 (partial): that the kernel's bytes are unpredictable is outside any model; what is checked is that every entropy "
@@ -114,6 +114,50 @@ def run(ctx):
         if r.cls != "error" or r.stdout != b"":
             ctx.violation("entropy-failure-in-one-worker", dict(op="new --vanity-prefix 0xfffffff", fail_at_request=rn["k"], threads=rn["j"]),
                           "error exit, nothing printed", str(r)[:300])
+    # consecutive requests of one process (a vanity search) returning buffers that are related to each other — same leading or
+    # trailing block, a single differing bit, the same buffer twice: each is simply the entropy of the next candidate; the search
+    # must go on and print the first candidate whose address matches (independent BIP-39/32 oracle), never fail
+    from gen import C18 as c18
+    fam = []
+    head, tail = rbytes(rng, 8), rbytes(rng, 8)
+    fam.append(("same-leading-8-bytes", [head + i.to_bytes(8, "big") for i in range(40)]))
+    fam.append(("same-trailing-8-bytes", [i.to_bytes(8, "big") + tail for i in range(1, 41)]))
+    b0 = rbytes(rng, 16)
+    fam.append(("one-bit-apart", [bytes(x ^ (1 << (i % 8) if j == 15 - (i // 8) % 16 else 0) for j, x in enumerate(b0)) if i else b0 for i in range(40)]))
+    fam.append(("same-leading-15-bytes", [head + tail[:7] + bytes([i]) for i in range(40)]))
+    rep = [rbytes(rng, 16) for _ in range(20)]
+    fam.append(("each-buffer-twice", [x for x in rep for _ in (0, 1)]))
+    sruns, smeta = [], []
+    for name, ents in fam:
+        addrs = [c18.addr_of_phrase(c18.phrase_of(e)) for e in ents[:12]]
+        # a one-digit prefix first met at candidate k >= 2
+        pick = None
+        for k in range(2, len(addrs)):
+            d = addrs[k].hex()[0]
+            if all(a.hex()[0] != d for a in addrs[:k]):
+                pick = (k, d)
+                break
+        if pick is None:
+            ctx.note("C12 related-buffers family %s: no usable prefix among 12 candidates; skipped" % name)
+            continue
+        k, d = pick
+        for j in (0, 1):
+            script = os.path.join(tmp, "rel_%s_%d" % (name, j))
+            log = script + ".log"
+            open(script, "w").write("".join(e.hex() + "\n" for e in ents[:k + 1]))
+            sruns.append(dict(args=["new", "-n", "12", "--vanity-prefix", "0x" + d, "-j", str(j)], timeout=120,
+                              env=dict(LD_PRELOAD=shim, HDW_SHIM_SCRIPT=script, HDW_SHIM_LOG=log, HDW_SHIM_DEFAULT="fail")))
+            smeta.append((name, j, k, ents, log))
+    for rn, (name, j, k, ents, log), r in zip(sruns, smeta, ctx.cli(sruns, timeout=120)):
+        ctx.count("related-consecutive-buffers/" + name)
+        ctx.distinct(("related", name, j))
+        case = dict(op="hdwallet " + " ".join(rn["args"]), family=name, entropy_per_request=[e.hex() for e in ents[:k + 1]])
+        want = c18.phrase_of(ents[k])
+        if r.cls != "ok" or r.stdout.decode() != want + "\n":
+            ctx.violation("related-consecutive-buffers", case, dict(request=k, phrase=want), str(r)[:300])
+        reqs = [l.split() for l in (open(log).read().split("\n") if os.path.exists(log) else []) if l]
+        if [x[1] for x in reqs] != ["16"] * (k + 1):
+            ctx.violation("related-consecutive-buffers/request-log", case, "%d requests of 16 bytes" % (k + 1), reqs[:8])
     # phrases produced by a vanity search (every candidate after the first is a NEW mnemonic) parse back as well
     vruns = [dict(args=["new", "-n", str(n), "--vanity-prefix", p, "-j", str(j)], timeout=120) for n in (12, 15, 18, 21, 24) for p, j in (("0x1", 0), ("0xa", 2), ("0xF", 1))]
     vres = ctx.cli(vruns, timeout=120)
